@@ -17,6 +17,7 @@ RULE = (
     "operation (operands rebuilt from their recipes) executed alone in a fresh interpreter with the same hash seed, (c) library module globals and mutable default "
     "arguments are compared with their snapshot; non-trivial = the history has >=4 operations of >=3 kinds and >=1 operand reuse; distinct by history"
 )
+PREIMPORT = ["qiskit", "qiskit.quantum_info", "cirq"]
 DECIDING = ["operations", "live_fingerprints_reread", "fresh_process_comparisons", "globals_snapshots", "defaults_checked"]
 ASSUMPTIONS = ["like-for-like comparison: history and fresh interpreter use the same tree and the same PYTHONHASHSEED", "pyqubo, pennylane, qutip_qip, tweedledum are not installed: to_bqm and those exporters are not part of the histories"]
 CASE_TIMEOUT = {"quick": 400, "thorough": 600}
